@@ -1,13 +1,19 @@
-"""Contracts for the receive path: frame_buffer, continuous_frame, WebSocket.recv* (C02-C07, C17)."""
+"""Contracts for the receive path: frame_buffer, continuous_frame, WebSocket.recv* (C02-C07, C13, C17)."""
+import socket as _socket
+import ssl as _ssl
 import z3
 from pyvc import smt
 from pyvc.engine import Contract
-from pyvc.values import SV, Ref, Ext, ExcVal, Rope, z, tag_of
+from pyvc.values import SV, Ref, Ext, ExcVal, Rope, BoundMethod, z, tag_of
 from pyvc.smt import slen, at, slc, cat, unit, Int, Sq
 from . import spec
+from .abnf import abnf_shape, F, frame_ok, header_shaped
 import websocket._exceptions as X
+import websocket._abnf as abnf_mod
 
 A = "websocket._abnf:"
+MAXREQ = 16384
+RECV_EXC = [X.WebSocketConnectionClosedException, X.WebSocketTimeoutException, OSError]
 
 
 def fb_shape(skip):
@@ -17,16 +23,16 @@ def fb_shape(skip):
         mask_value=("oneof", ["none", "bytes", ("const", "")]), lock=("ext", "Lock")))
 
 
-def cf_shape(fire, skip):
-    return ("obj", "websocket._abnf.continuous_frame", dict(
-        fire_cont_frame=("const", fire), skip_utf8_validation=("const", skip),
-        cont_data=("opt", ("list", ["int", "bytes"])), recving_frames=("opt", "int")))
-
-
 def fb_idle(skip):
     return ("obj", "websocket._abnf.frame_buffer", dict(
         recv=("const", None), skip_utf8_validation=("const", skip), recv_buffer=("list", []),
         header="none", length="none", mask_value="none", lock=("ext", "Lock")))
+
+
+def cf_shape(fire, skip):
+    return ("obj", "websocket._abnf.continuous_frame", dict(
+        fire_cont_frame=("const", fire), skip_utf8_validation=("const", skip),
+        cont_data=("opt", ("list", ["int", "bytes"])), recving_frames=("opt", "int")))
 
 
 def cf_idle(fire, skip):
@@ -34,5 +40,265 @@ def cf_idle(fire, skip):
         fire_cont_frame=("const", fire), skip_utf8_validation=("const", skip), cont_data="none", recving_frames="none"))
 
 
+def ghost_rx(c):
+    g = c.ghost
+    if "rx" in g:
+        return
+    g["rx"] = c.fresh("bytes", "rx")
+    g["rpos"] = c.fresh("int", "rpos")
+    g["rx_calls"] = c.fresh("int", "rx_calls")
+    c.assume(z3.And(z(g["rpos"]) >= 0, z(g["rpos"]) <= slen(z(g["rx"])), z(g["rx_calls"]) >= 0))
+
+
+def joined(c, fb, view=None):
+    v = view or c
+    rb = v.getf(fb, "recv_buffer")
+    d = v.cell(rb).data
+    if isinstance(d, Rope):
+        return d.joined
+    return smt.cat_all([z(x) for x in d])
+
+
+def ppos(c, fb, view=None):
+    """Offset in rx of the first byte the parser has not consumed yet."""
+    v = view or c
+    return z(v.ghost["rpos"]) - slen(joined(c, fb, view))
+
+
+def RB(c, fb, view=None):
+    """Buffer invariant: the buffered bytes are exactly rx[p:rpos]."""
+    v = view or c
+    rx, rpos = z(v.ghost["rx"]), z(v.ghost["rpos"])
+    p = ppos(c, fb, view)
+    return z3.And(0 <= p, p <= rpos, rpos <= slen(rx), c.eq(joined(c, fb, view), slc(rx, p, rpos)))
+
+
+def FB(c, fb, view=None):
+    """Representation invariant of frame_buffer against the ghost stream (DESIGN 5 C02), with ghost fstart."""
+    v = view or c
+    rx, f = z(v.ghost["rx"]), z(v.ghost["fstart"])
+    d = spec.Dec(rx, f)
+    p = ppos(c, fb, view)
+    hdr, ln, mk = v.getf(fb, "header"), v.getf(fb, "length"), v.getf(fb, "mask_value")
+    parts = [RB(c, fb, view), 0 <= f]
+    rpos = z(v.ghost["rpos"])
+    # the parser never holds a byte beyond the stage it is reading (no over-read)
+    if hdr is None:
+        parts.append(z3.BoolVal(ln is None and mk is None))
+        parts.append(p == f)
+        parts.append(rpos <= f + 2)
+        return z3.And(*parts)
+    parts.append(f + 2 <= p)
+    parts += [z(h, "int") == t for h, t in zip(hdr, d.header)]
+    if ln is None:
+        parts.append(z3.BoolVal(mk is None))
+        parts.append(p == f + 2)
+        parts.append(rpos <= d.keypos)
+        return z3.And(*parts)
+    parts.append(z(ln) == d.length)
+    if mk is None:
+        parts.append(p == d.keypos)
+        parts.append(rpos <= d.paypos)
+        return z3.And(*parts)
+    if tag_of(mk) == "bytes":
+        parts += [d.masked == 1, c.eq(z(mk), d.key), slen(z(mk)) == 4]
+    else:
+        parts += [d.masked == 0]
+    parts.append(p == d.paypos)
+    parts.append(rpos <= d.next)
+    return z3.And(*parts)
+
+
+def recv_owner(c, fb, view=None):
+    r = (view or c).getf(fb, "recv")
+    if isinstance(r, BoundMethod) and isinstance(r.self_, Ref):
+        return r.self_
+    return None
+
+
+def chunk_post(c, old, res, k):
+    """Transport hand-over: res = rx[rpos0 : rpos0+len res], 1 <= len res <= k, rpos advanced by len res."""
+    rx, r0, r1 = z(old.ghost["rx"]), z(old.ghost["rpos"]), z(c.ghost["rpos"])
+    return z3.And(slen(z(res)) >= 1, slen(z(res)) <= k, r1 == r0 + slen(z(res)), r1 <= slen(rx),
+                  c.eq(z(res), slc(rx, r0, r1)), z(c.ghost["rx_calls"]) >= z(old.ghost["rx_calls"]) + 1)
+
+
+def rpos_same(c, old):
+    return z(c.ghost["rpos"]) == z(old.ghost["rpos"])
+
+
+def owner_closed(c, ws):
+    return z3.And(z3.BoolVal(c.getf(ws, "sock") is None), z3.Not(z(c.getf(ws, "connected"), "bool")))
+
+
+def havoc_rx(c):
+    c.ghost["rpos"] = c.fresh("int", "rpos")
+    c.ghost["rx_calls"] = c.fresh("int", "rx_calls")
+
+
 def install(e):
-    pass
+    _install_strict(e)
+    install_frame(e)
+
+
+def _install_strict(e):
+    # ================================================================= receive callable handed to frame_buffer (assumed)
+    def rf_havoc(c, a, old, k):
+        havoc_rx(c)
+    e.add(Contract("ext:recv_fn.__call__", assumed=True,
+                   requires=lambda c, a: z3.And(z(a["$args"][0], "int") >= 1, z(a["$args"][0], "int") <= MAXREQ),
+                   result=lambda c, a: c.fresh("bytes", "chunk"), havoc=rf_havoc,
+                   ensures=lambda c, old, a, res: chunk_post(c, old, res, z(a["$args"][0], "int")),
+                   raises=[(cls, None, lambda c, old, a, exc: rpos_same(c, old)) for cls in RECV_EXC],
+                   doc="recv(k), 1 <= k <= 16384: some non-empty prefix (at most k bytes) of what the peer has sent and the library "
+                       "has not yet taken; or connection-closed / timeout / OSError with nothing taken.  Chunk length and outcome "
+                       "are unconstrained: this is the quantifier over all segmentations and timeout positions"))
+
+    # ================================================================= frame_buffer.recv_strict
+    def rs_case(c):
+        ghost_rx(c)
+        fb = c.fresh(fb_shape(False), "fb")
+        c.setf(fb, "recv", c.new_ext("recv_fn"))
+        return dict(self=fb, bufsize=c.fresh("int", "bufsize"))
+
+    def rs_req(c, a):
+        return z3.And(RB(c, a["self"]), z(a["bufsize"], "int") >= 0)
+
+    def rs_post(c, old, a, res):
+        fb, n = a["self"], z(a["bufsize"], "int")
+        rx = z(old.ghost["rx"])
+        p0 = ppos(c, fb, old)
+        j0 = slen(joined(c, fb, old))
+        return z3.And(RB(c, fb), c.eq(z(res), slc(rx, p0, p0 + n)), ppos(c, fb) == p0 + n,
+                      # no over-read: unless more than n bytes were already buffered, nothing beyond them is taken
+                      z3.Implies(j0 <= n, z(c.ghost["rpos"]) == p0 + n))
+
+    def rs_fail(c, old, a, exc):
+        fb = a["self"]
+        p0, n = ppos(c, fb, old), z(a["bufsize"], "int")
+        return z3.And(RB(c, fb), ppos(c, fb) == p0,
+                      z3.Implies(slen(joined(c, fb, old)) <= n, z(c.ghost["rpos"]) <= p0 + n))
+
+    def fb_mods(c, a, extra=()):
+        fb = a["self"]
+        m = [(fb, "recv_buffer"), "ghost:rpos", "ghost:rx_calls"] + [(fb, f) for f in extra]
+        ws = recv_owner(c, fb)
+        if ws is not None:
+            m += [(ws, "sock"), (ws, "connected"), "ghost:closed_handles"]
+        return m
+
+    def owner_effects(c, a, old, k, closed_idx):
+        fb = a["self"]
+        ws = recv_owner(c, fb)
+        if ws is not None and k == closed_idx:
+            c.setf(ws, "sock", None)
+            c.setf(ws, "connected", False)
+            c.ghost["closed_handles"] = c.fresh("int", "closed_handles")
+
+    def rs_havoc(c, a, old, k):
+        fb = a["self"]
+        c.setf(fb, "recv_buffer", c.fresh(("rope",), "recv_buffer"))
+        havoc_rx(c)
+        owner_effects(c, a, old, k, 1)
+
+    def rs_inv(c, fr, entry):
+        fb = fr.locals["self"]
+        n, sh = z(fr.locals["bufsize"], "int"), z(fr.locals["shortage"], "int")
+        return z3.And(RB(c, fb), sh == n - slen(joined(c, fb)), ppos(c, fb) == ppos(c, fb, entry),
+                      z3.Implies(slen(joined(c, fb, entry)) <= n, sh >= 0))
+
+    def rs_loop_havoc(c, fr, entry):
+        fb = fr.locals["self"]
+        c.setf(fb, "recv_buffer", c.fresh(("rope",), "recv_buffer"))
+        havoc_rx(c)
+    e.loop("frame_buffer.recv_strict", 0, inv=rs_inv, havoc=rs_loop_havoc, decreases=lambda c, fr: z(fr.locals["shortage"], "int"),
+           modifies=lambda c, fr: [(fr.locals["self"], "recv_buffer")])
+    e.add(Contract(A + "frame_buffer.recv_strict", cases=[("any", rs_case)], requires=rs_req, ensures=rs_post,
+                   result=lambda c, a: c.fresh("bytes", "got"),
+                   raises=[(cls, None, rs_fail) for cls in RECV_EXC],
+                   modifies=lambda c, a: fb_mods(c, a), havoc=rs_havoc, props=("C02", "C03", "C13", "C17"),
+                   doc="returns exactly rx[p:p+n]; consumes exactly n bytes; requests at most min(16384, shortage) per transport call "
+                       "and never reads past the n-th byte; on a transport exception nothing buffered is lost (state kept)"))
+
+
+def install_frame(e):
+    """frame_buffer.recv_frame (stages inlined) and WebSocket.recv_frame / _recv."""
+    # ghost statement: when the parser resets its stage flags the frame has been consumed completely
+    def after_clear(c, fr, r):
+        if "fstart" in c.ghost:
+            d = spec.Dec(z(c.ghost["rx"]), z(c.ghost["fstart"]))
+            c.ghost["fstart"] = SV("int", d.next)
+    e.after_call[("frame_buffer.recv_frame", "clear")] = after_clear
+
+    def rf_case(c):
+        ghost_rx(c)
+        c.ghost["fstart"] = c.fresh("int", "fstart")
+        fb = c.fresh(fb_shape(c.fresh("bool", "skip")), "fb")
+        c.setf(fb, "recv", c.new_ext("recv_fn"))
+        return dict(self=fb)
+
+    def stage_clear(c, fb):
+        return z3.BoolVal(c.getf(fb, "header") is None and c.getf(fb, "length") is None and c.getf(fb, "mask_value") is None)
+
+    def consumed(c, old, fb):
+        d = spec.Dec(z(old.ghost["rx"]), z(old.ghost["fstart"]))
+        return z3.And(z(c.ghost["fstart"]) == d.next, stage_clear(c, fb), RB(c, fb), ppos(c, fb) == d.next,
+                      z(c.ghost["rpos"]) == d.next)  # nothing beyond the frame has been taken from the transport
+
+    def rf_post(c, old, a, res):
+        fb = a["self"]
+        d = spec.Dec(z(old.ghost["rx"]), z(old.ghost["fstart"]))
+        fin, r1, r2, r3, op, mv, data = F(c, res, "fin", "rsv1", "rsv2", "rsv3", "opcode", "mask_value", "data")
+        return z3.And(consumed(c, old, fb), fin == d.fin, r1 == d.rsv1, r2 == d.rsv2, r3 == d.rsv3, op == d.opcode, mv == d.masked,
+                      c.eq(data, d.payload), header_shaped(c, res),
+                      frame_ok(c, res, old.getf(fb, "skip_utf8_validation"), "not_must_reject"))
+
+    def rf_proto_when(c, old, a):
+        d = spec.Dec(z(old.ghost["rx"]), z(old.ghost["fstart"]))
+        skip = old.getf(a["self"], "skip_utf8_validation")
+        return z3.Not(spec.rfc_ok(d.fin, d.rsv1, d.rsv2, d.rsv3, d.opcode, d.payload,
+                                  z(skip, "bool") if not isinstance(skip, bool) else z3.BoolVal(skip), "must_accept"))
+
+    def rf_proto(c, old, a, exc):
+        return consumed(c, old, a["self"])
+
+    def rf_fail(c, old, a, exc):
+        return z3.And(FB(c, a["self"]), z(c.ghost["fstart"]) == z(old.ghost["fstart"]))
+
+    def rf_result(c, a):
+        return c.fresh(abnf_shape("bytes", "keysource"), "rframe")
+
+    def rf_mods(c, a):
+        fb = a["self"]
+        m = [(fb, "recv_buffer"), (fb, "header"), (fb, "length"), (fb, "mask_value"), "ghost:rpos", "ghost:rx_calls", "ghost:fstart"]
+        ws = recv_owner(c, fb)
+        if ws is not None:
+            m += [(ws, "sock"), (ws, "connected"), "ghost:closed_handles"]
+        return m
+
+    def rf_havoc(c, a, old, k):
+        fb = a["self"]
+        havoc_rx(c)
+        if k in (0, 1):
+            c.setf(fb, "recv_buffer", c.alloc("list", None, []))
+            for f in ("header", "length", "mask_value"):
+                c.setf(fb, f, None)
+            c.ghost["fstart"] = c.fresh("int", "fstart")
+        else:
+            sh = fb_shape(False)[2]
+            c.setf(fb, "recv_buffer", c.fresh(("rope",), "recv_buffer"))
+            for f in ("header", "length", "mask_value"):
+                c.setf(fb, f, c.fresh(sh[f], f))
+            ws = recv_owner(c, fb)
+            if ws is not None and k == 2:
+                c.setf(ws, "sock", None)
+                c.setf(ws, "connected", False)
+                c.ghost["closed_handles"] = c.fresh("int", "closed_handles")
+    e.add(Contract(A + "frame_buffer.recv_frame", cases=[("any-stage", rf_case)],
+                   requires=lambda c, a: FB(c, a["self"]), ensures=rf_post, result=rf_result,
+                   raises=[(X.WebSocketProtocolException, rf_proto_when, rf_proto)] + [(cls, None, rf_fail) for cls in RECV_EXC],
+                   modifies=rf_mods, havoc=rf_havoc, props=("C02", "C03", "C05", "C12", "C13", "C17"),
+                   doc="normal: the returned frame equals rfc_decode(rx, fstart) (flags, opcode, mask flag, unmasked payload), exactly the "
+                       "frame's bytes are consumed (fstart' = next frame, parser holds no byte of a later frame) and the frame is RFC-admissible; "
+                       "protocol exception: the frame is not admissible and was consumed completely; transport exception / timeout: "
+                       "the representation invariant holds with fstart unchanged, so a retry resumes where it stopped"))
